@@ -3,6 +3,7 @@ package main
 import (
 	"fmt"
 	"go/ast"
+	"go/constant"
 	"go/parser"
 	"go/token"
 	"html/template"
@@ -14,7 +15,142 @@ import (
 	"text/template/parse"
 )
 
-func webFacts(repo string) {}
+func webFacts(repo string) {
+	ws := load(filepath.Join(repo, "stack", "webstack"), "github.com/maruel/panicparse/v2/stack/webstack")
+	h := ws.funcDecl("", "SnapshotHandler")
+	constOf := func(e ast.Expr) (string, bool) {
+		if tv, ok := ws.info.Types[e]; ok && tv.Value != nil {
+			if tv.Value.Kind() == constant.String {
+				return constant.StringVal(tv.Value), true
+			}
+			return tv.Value.ExactString(), true
+		}
+		return "", false
+	}
+	selName := func(e ast.Expr) string {
+		if s, ok := e.(*ast.SelectorExpr); ok {
+			return s.Sel.Name
+		}
+		if id, ok := e.(*ast.Ident); ok {
+			return id.Name
+		}
+		return ""
+	}
+	// events of the handler in source order
+	var events []string
+	method := ""
+	defMaxmem := ""
+	var simCases []string
+	ast.Inspect(h, func(n ast.Node) bool {
+		switch v := n.(type) {
+		case *ast.BinaryExpr:
+			if v.Op == token.NEQ || v.Op == token.EQL || v.Op == token.LSS || v.Op == token.GTR {
+				if c, ok := constOf(v.Y); ok {
+					x := selName(v.X)
+					if x == "Method" {
+						method = c
+					}
+					if x != "" && x != "s" && x != "err" {
+						events = append(events, fmt.Sprintf("cmp:%s%s%s", x, v.Op, c))
+					}
+				}
+			}
+		case *ast.AssignStmt:
+			if len(v.Lhs) == 1 && len(v.Rhs) == 1 {
+				if id, ok := v.Lhs[0].(*ast.Ident); ok && id.Name == "maxmem" && v.Tok == token.DEFINE {
+					if c, ok := constOf(v.Rhs[0]); ok {
+						defMaxmem = c
+					}
+				}
+				if s, ok := v.Lhs[0].(*ast.SelectorExpr); ok {
+					if c, ok := constOf(v.Rhs[0]); ok {
+						events = append(events, fmt.Sprintf("set:%s=%s", s.Sel.Name, c))
+					}
+				}
+			}
+		case *ast.CallExpr:
+			switch selName(v.Fun) {
+			case "FormValue":
+				if c, ok := constOf(v.Args[0]); ok {
+					events = append(events, "form:"+c)
+				}
+			case "Error":
+				events = append(events, "error:"+selName(v.Args[2]))
+			case "snapshot", "Atoi", "DefaultOpts", "Aggregate", "ToHTML":
+				events = append(events, "call:"+selName(v.Fun))
+			}
+		case *ast.CaseClause:
+			var labels []string
+			for _, e := range v.List {
+				if c, ok := constOf(e); ok {
+					labels = append(labels, leanBytes(c))
+				}
+			}
+			target := ""
+			for _, st := range v.Body {
+				if as, ok := st.(*ast.AssignStmt); ok && len(as.Rhs) == 1 {
+					target = selName(as.Rhs[0])
+				}
+			}
+			if len(v.List) > 0 {
+				simCases = append(simCases, fmt.Sprintf("([%s], %s)", strings.Join(labels, ", "), leanStr(target)))
+			} else {
+				events = append(events, "default")
+			}
+		}
+		return true
+	})
+	if method == "" || defMaxmem == "" {
+		die("webstack: method or default maxmem not found")
+	}
+	// snapshot: the first buffer size and the growth factor
+	sn := ws.funcDecl("", "snapshot")
+	minBuf, factor := "", ""
+	var snEvents []string
+	ast.Inspect(sn, func(n ast.Node) bool {
+		switch v := n.(type) {
+		case *ast.CallExpr:
+			if id, ok := v.Fun.(*ast.Ident); ok && id.Name == "make" && len(v.Args) == 2 && minBuf == "" {
+				if c, ok := constOf(v.Args[1]); ok {
+					minBuf = c
+				}
+			}
+			if selName(v.Fun) == "Stack" || selName(v.Fun) == "ScanSnapshot" {
+				snEvents = append(snEvents, "call:"+selName(v.Fun))
+			}
+		case *ast.BinaryExpr:
+			if v.Op == token.MUL {
+				if c, ok := constOf(v.Y); ok {
+					factor = c
+				}
+			}
+			if v.Op == token.LSS || v.Op == token.GEQ || v.Op == token.GTR {
+				var sb strings.Builder
+				for _, e := range []ast.Expr{v.X, v.Y} {
+					switch x := e.(type) {
+					case *ast.Ident:
+						sb.WriteString(x.Name)
+					case *ast.CallExpr:
+						sb.WriteString("len")
+					}
+					sb.WriteString(" ")
+				}
+				snEvents = append(snEvents, fmt.Sprintf("cmp:%s:%s", v.Op, strings.TrimSpace(sb.String())))
+			}
+		case *ast.BranchStmt:
+			snEvents = append(snEvents, v.Tok.String())
+		}
+		return true
+	})
+	if minBuf == "" || factor == "" {
+		die("webstack: snapshot buffer size or growth factor not found")
+	}
+	fmt.Fprintf(&out, "/-- stack/webstack: SnapshotHandler and snapshot -/\ndef webMethod : List UInt8 := %s\n", leanBytes(method))
+	fmt.Fprintf(&out, "def webDefaultMaxmem : Nat := %s\ndef webMinBuf : Nat := %s\ndef webGrowFactor : Nat := %s\n", defMaxmem, minBuf, factor)
+	fmt.Fprintf(&out, "/-- the similarity switch: (case labels, constant assigned) in order -/\ndef webSimilarityCases : List (List (List UInt8) × String) := [%s]\n", strings.Join(simCases, ", "))
+	fmt.Fprintf(&out, "/-- form values read, constant comparisons, http.Error statuses and calls of SnapshotHandler in source order -/\ndef webHandlerEvents : List String := [%s]\n", quoteAll(events))
+	fmt.Fprintf(&out, "/-- comparisons, breaks and calls of snapshot in source order -/\ndef webSnapshotEvents : List String := [%s]\n\n", quoteAll(snEvents))
+}
 
 // templateFacts parses the HTML template (the constant indexHTML of
 // stack/data.go) with html/template itself, lets the contextual escaper rewrite
